@@ -5,7 +5,8 @@ import subprocess, re, glob, os
 V = os.path.dirname(os.path.dirname(os.path.abspath(__file__)))
 BASE = "659c5ec"
 # property attribution by subject keyword (first match wins)
-RULES = [ ("compound literal may be followed by postfix", "C13"), ("_Alignof of a variable length array", "C08"),
+RULES = [("#include nested more than 200 deep", "C13"),
+  ("compound literal may be followed by postfix", "C13"), ("_Alignof of a variable length array", "C08"),
   ("_Atomic is accepted as a pointer qualifier", "C13"), ("expression of another struct or union type initializes", "C05"), ("designator into a union overrides", "C05"),
  ("in #if the results of relational", "C10"), ("postfix ++/-- on an atomic _Bool", "C16"), ("atomic read-modify-write on an object that is not", "C13"),
   ("'struct T;' declares a new incomplete", "C03"), ("selection and iteration statements", "C03"), ("function prototype scope for every", "C03"), ("outermost block of a function body are one scope", "C03"),
